@@ -1,5 +1,6 @@
 """C18 — the serde bridge and the native Encode/Decode traits interoperate on the shared data model."""
 from verifkit.runner import Stream
+from verifkit import gen
 from verifkit.props import serde_types as T
 
 ID = "C18"
@@ -130,13 +131,102 @@ def streams(rng, tier):
                 rule="ide <type> <framing of an encoding> #m=<mode> #v=<value>", nontrivial=lambda op, impl: impl.startswith("ok") or " | ok" in impl)
     s3 = Stream("interop-hostile", "hserde", h_ops, model_ops=[model_op(o) for o in h_ops], judge=judge_ide,
                 rule="ide <type> <strict prefix | one-byte mutation>", nontrivial=lambda op, impl: "err" in impl)
-    for s in (s1, s2, s3):
+    s4 = extra_stream(rng, tier)
+    for s in (s1, s2, s3, s4):
         s.shrinkable = False
-    return [s1, s2, s3]
+    return [s1, s2, s3, s4]
+
+
+def judge_extra(op, impl, model, spec):
+    """`ideb`: borrowing targets (&str inside tuples / Vec / Option / BTreeMap) through both decoders: on the canonical bytes of
+    a value both return it and consume everything; on a re-framing each returns that value or an error; never two different
+    values.  `iserh`: a BinaryHeap written by both codecs: identical bytes, a definite array of the pushed multiset."""
+    w = [x for x in op.split(" ") if not x.startswith("#")]
+    ann = {x[1:].split("=", 1)[0]: x.split("=", 1)[1] for x in op.split(" ") if x.startswith("#") and "=" in x}
+    if w[0] == "iserh":
+        p = impl.split(" ")
+        if len(p) != 2 or p[0] != p[1] or p[0] == "err":
+            return "violation"
+        return "ok" if "n" not in ann or _heap_ok(p[0], w[1], w[2]) else "violation"
+    if " | " not in impl:
+        return "violation"
+    nat, bri = impl.split(" | ")
+    n = len(w[2]) // 2 if w[2] != "-" else 0
+    want = ann.get("v")
+    for side in (nat, bri):
+        if side.startswith("ok "):
+            if want is not None and side != f"ok {want} {n}":
+                return "violation"
+        elif not side.startswith("err "):
+            return "violation"
+    if ann.get("m") == "canon" and not (nat.startswith("ok ") and bri.startswith("ok ")):
+        return "violation"
+    return "ok"
+
+
+def _heap_ok(hx, kind, arg):
+    from verifkit import typegen
+    b = bytes.fromhex(hx)
+    it = typegen.walk(b, 0)
+    if it is None or it.end != len(b) or it.major != 4 or it.indef:
+        return False
+    vals = [] if arg == "-" else arg.split(",")
+    if kind == "str":
+        want = sorted(gen.head(3, len(bytes.fromhex(v))) + bytes.fromhex(v) for v in vals)
+    else:
+        want = sorted((gen.head(0, int(v)) if int(v) >= 0 else gen.head(1, -1 - int(v))) for v in vals)
+    return sorted(b[k.start:k.end] for k in it.kids) == want
+
+
+def extra_stream(rng, tier):
+    ops = []
+    texts = [b"", b"a", b"hello", "é€😀".encode(), b"x" * 23, b"y" * 24, b"z" * 255, b"w" * 256]
+    def tstr(t, wide=0, chunk=False):
+        if chunk:
+            h = len(t) // 2
+            return b"\x7f" + gen.head(3, h) + t[:h] + gen.head(3, len(t) - h) + t[h:] + b"\xff"
+        return (gen.head(3, len(t), wide) if wide else gen.head(3, len(t))) + t
+    hxs = lambda t: gen.hexb(t)
+    for _ in range(300 if tier == "quick" else 5000):
+        a, b2 = rng.choice(texts), rng.choice(texts)
+        n = rng.randint(0, 255)
+        mode = rng.choice(["canon", "canon", "wide", "chunk"])
+        wide = rng.choice([1, 2, 4, 8]) if mode == "wide" else 0
+        if mode == "wide" and max(len(a), len(b2)) >= 256 and wide == 1: wide = 2
+        ch = mode == "chunk"
+        S = lambda t: tstr(t, wide, ch)
+        ops.append(f"ideb str {S(a).hex()} #m={mode} #v={hxs(a)}")
+        ops.append(f"ideb tup {(bytes([0x82]) + S(a) + gen.head(0, n)).hex()} #m={mode} #v={hxs(a)},{n}")
+        ops.append(f"ideb vec {(bytes([0x82]) + S(a) + S(b2)).hex()} #m={mode} #v={hxs(a)},{hxs(b2)}")
+        ops.append(f"ideb vec 80 #m=canon #v=[]")
+        ops.append(f"ideb opt {S(a).hex()} #m={mode} #v=S{hxs(a)}")
+        ops.append(f"ideb opt f6 #m=canon #v=N")
+        if a != b2:
+            k1, k2 = sorted([a, b2])
+            ops.append(f"ideb map {(bytes([0xa2]) + S(k1) + S(b2) + S(k2) + S(a)).hex()} #m={mode} #v={hxs(k1)}={hxs(b2)},{hxs(k2)}={hxs(a)}")
+        e = S(a)
+        if len(e) > 1:
+            ops.append(f"ideb str {e[:rng.randrange(1, len(e))].hex()} #m=trunc")
+    for _ in range(300 if tier == "quick" else 5000):
+        k = rng.choice(["u8", "i64", "str"])
+        m = rng.choice([0, 1, 2, 3, 3, 4, 5, 8, 24, 30])
+        if k == "u8": vals = [str(rng.choice([0, 1, 23, 24, 255, rng.randint(0, 255)])) for _ in range(m)]
+        elif k == "i64": vals = [str(rng.choice([0, -1, 23, 24, -25, 2**63 - 1, -2**63, rng.randint(-1000, 1000)])) for _ in range(m)]
+        else: vals = [rng.choice([b"a", b"bb", b"ccc", b"", b"zz"]).hex() or "" for _ in range(m)]; vals = [v for v in vals if v]
+        ops.append(f"iserh {k} {','.join(vals) or '-'} #n=1")
+    ops = list(dict.fromkeys(ops))
+    return Stream("interop-borrowed-and-heaps", "hserde", ops, model_ops=["nop"] * len(ops), judge=judge_extra,
+                  rule="ideb: &str-borrowing targets ((&str, u8), Vec<&str>, Option<&str>, BTreeMap<&str, &str>) through minicbor::decode and the bridge on canonical, "
+                       "wide-head and chunked encodings; iserh: BinaryHeap<u8 | i64 | String> written by both codecs (identical bytes, the pushed multiset); no model op",
+                  nontrivial=lambda op, impl: "ok" in impl or len(impl.split(" ")) == 2)
 
 
 def replay_streams(rp):
     op = rp.get("original_op") or rp["op"]
+    if op.startswith(("ideb", "iserh")):
+        s = Stream("replay", "hserde", [op], model_ops=["nop"], judge=judge_extra)
+        s.shrinkable = False
+        return [s]
     j = judge_iser if op.startswith("iser ") else judge_ide
     s = Stream("replay", "hserde", [op], model_ops=[model_op(op)], judge=j)
     s.shrinkable = False
